@@ -15,7 +15,7 @@ Inductive cclass :=
 
 Inductive tmo := TFin | TInf.                 (* a finite timeout, or None *)
 Inductive blk := BPoll (t : tmo) | BJoin (t : tmo).   (* blocking primitives the parent calls *)
-Inductive kind := KThread | KProcess | KPersistentProcess.
+Inductive kind := KThread | KProcess | KPersistentProcess | KPersistentThread.
 
 Record pw := mkPw {
   started : bool;          (* _started *)
@@ -47,7 +47,8 @@ Definition finish (s : pw) : pw * bool := if alive s then (s, false) else (mark_
 (* a persistent child whose input side has been released finishes on its own unless it is unresponsive *)
 Definition after_close (k : kind) (s : pw) : pw :=
   match k with
-  | KPersistentProcess => let s1 := set_closed s in if dies_gracefully (cls s1) then set_alive s1 false else s1
+  | KPersistentProcess | KPersistentThread =>
+      let s1 := set_closed s in if dies_gracefully (cls s1) then set_alive s1 false else s1
   | _ => s
   end.
 
@@ -56,6 +57,10 @@ Definition step (k : kind) (s : pw) (o : op) : pw * bool :=
   | IsAlive => is_alive s
   | Close => match k with
              | KPersistentProcess => (after_close k s, true)
+             | KPersistentThread =>
+                 (* close(): `if not self.is_alive(): return` precedes the release *)
+                 let '(s1, a) := is_alive s in
+                 if a then (after_close k s1, true) else (s1, true)
              | _ => (s, true)
              end
   | Wait t =>
@@ -67,10 +72,10 @@ Definition step (k : kind) (s : pw) (o : op) : pw * bool :=
       if negb a then (s1, true)
       else
         match k with
-        | KThread =>
-            (* foreign_raise + join(timeout); force (SIGTERM to the own process) is outside the model *)
+        | KThread | KPersistentThread =>
+            (* foreign_raise + _release_child + join(timeout); force (SIGTERM to the own process) is outside the model *)
             let s2 := if dies_gracefully (cls s1) then set_alive s1 false else s1 in
-            finish (with_log s2 [BJoin t])
+            finish (with_log (after_close k s2) [BJoin t])
         | _ =>
             (* put('terminate'); poll(timeout) for the acknowledgement; release; join; SIGTERM; join; SIGKILL; join *)
             let s2 := with_log s1 [BPoll t] in
@@ -88,6 +93,8 @@ Fixpoint run (k : kind) (s : pw) (ops : list op) : pw * list bool :=
   | [] => (s, [])
   | o :: r => let '(s1, b) := step k s o in let '(s2, bs) := run k s1 r in (s2, b :: bs)
   end.
+
+Definition is_process_kind (k : kind) : bool := match k with KProcess | KPersistentProcess => true | _ => false end.
 
 Definition fresh (c : cclass) : pw := mkPw true false true c false [].
 Definition never_run (c : cclass) : pw := mkPw false true false c false [].
